@@ -209,10 +209,10 @@ def assign_case(draw):
                               nchan_max=8))
     steps = []
     for _ in range(draw(st.integers(1, 5))):
-        kind = draw(st.sampled_from(["look", "look", "set_cf", "set_align", "set_bw", "slice", "shift_cf_channels", "refused"]))
+        kind = draw(st.sampled_from(["look", "look", "set_cf", "set_align", "set_bw", "slice", "slice", "shift_cf_channels", "refused", "set_rate"]))
         if kind == "set_cf":
             steps.append([kind, draw(G.freq_q(3, 10.5, units=("Hz", "kHz", "MHz", "GHz")))])
-        elif kind == "set_bw":
+        elif kind in ("set_bw", "set_rate"):
             steps.append([kind, draw(G.freq_q(0, 7, units=("Hz", "kHz", "MHz")))])
         elif kind == "set_align":
             steps.append([kind, draw(st.sampled_from(["bottom", "center", "top"]))])
@@ -258,8 +258,20 @@ def run_assign(case, stt):
             elif kind == "set_align":
                 z.freq_align = step[1]
                 spec["align"] = step[1]
+            elif kind == "set_rate":
+                # the sample rate is re-assigned (a baseband signal's channel width IS its sample rate)
+                if abs(O.fq(spec["cf"])) > O.fq(step[1]) * 10**9:
+                    continue
+                z.sample_rate = O.q(step[1])
+                spec["sr"] = step[1]
             elif kind == "slice":
-                _ = z[:, : max(1, nchan // 2)]
+                h = max(1, nchan // 2)
+                y = z[:, :h]
+                want = labels_hz(z)[:h]
+                gotl = labels_hz(y)
+                tl = max(abs(v) for v in want + [O.hz(z.chan_bw) * nchan]) * F(2.220446049250313e-16) * 16
+                check(len(gotl) == h and all(abs(a - b) <= tl for a, b in zip(gotl, want)), "after {}: the first {} channels sliced off are labelled {} Hz, "
+                      "the signal's own labels there are {} Hz", case["steps"], h, [float(v) for v in gotl], [float(v) for v in want])
             elif kind == "refused":
                 G.bad_assign(z, step[1])  # an invalid value is refused and leaves the labels as they were
         if kind.startswith("set") or kind == "shift_cf_channels":
